@@ -137,13 +137,13 @@ func pubLockEngine(p *Pub) *lockEngine {
 }
 
 type lockRun struct {
-	reports []*lockUnitReport
-	nUnits  int
-	nLock   int
-	nUnlock int
-	nAccess int
+	reports  []*lockUnitReport
+	nUnits   int
+	nLock    int
+	nUnlock  int
+	nAccess  int
 	appCalls []string
-	mayLock []string
+	mayLock  []string
 }
 
 var lockRunCache *lockRun
